@@ -6,7 +6,7 @@ from harness import gen as G
 from harness.world import World
 from ref import console as refconsole
 
-from . import common
+from . import common, sendq
 from .common import viol
 
 ID = "C08"
@@ -27,7 +27,7 @@ ASSUMPTIONS = [
     "instants within 0.1 s of a deadline (responses, connection changes) are not judged; after a reset the next deadline may count from any instant between the close and the re-establishment",
     "any delivered console-version message counts as a response, solicited or not",
 ]
-PROBES = ["c08.other_extended_traffic", "c08.blocked_dead_link", "c08.silence_from_start", "c08.silence_after_response", "c08.silence_after_reset", "c08.late_answer", "c08.blackhole", "c08.bare_manager",
+PROBES = ["c08.full_buffer_at_tick", "c08.other_extended_traffic", "c08.blocked_dead_link", "c08.silence_from_start", "c08.silence_after_response", "c08.silence_after_reset", "c08.late_answer", "c08.blackhole", "c08.bare_manager",
           "c08.reset_expected", "c08.second_reset_expected", "c08.all_answered", "c08.outage_over_tick"]
 
 
@@ -120,6 +120,17 @@ def generate(rng, index: int, tier: str) -> dict:
         sc["timeline"].append({"at": t_f - G.EPS, "op": "net.fates", "fates": [{"kind": "accept", "latency": delta + rng.choice([0.25, 0.5, 0.75, 3.0])}]})
         sc["timeline"].append({"at": t_f, "op": "net.fin"})
         sc["info"]["fin_at"] = t_f
+        if rng.random() < 0.5:
+            # ... during which the user keeps issuing commands: at the tick the client's buffer of pending messages is full.
+            # Whatever happens to that heartbeat, the monitoring must go on once the link is back.
+            burst = sendq.distinct_messages(rng, gen, 12)[: rng.choice([10, 10, 11])]
+            for i, d in enumerate(burst):
+                at = t_f + delta * 0.5 + i * 2.0**-8
+                if bare:
+                    sc["timeline"].append({"at": at, "op": "user.send", "msg": d, "policy": "idem"})
+                else:
+                    sc["timeline"].append({"at": at, "op": "user.api", "target": ["zone", 0], "call": "set_power", "args": {"zone_power": "ON" if i % 2 else "OFF"}})
+            sc["info"]["full_buffer_at_tick"] = True
     if rng.random() < 0.3:
         # other traffic on the link, in particular other *extended* (0x1F) messages: error descriptions pushed by the console,
         # and AC status frames with a new error code (the client asks for the description, the console answers).  None of it
@@ -167,6 +178,8 @@ def execute(sc: dict) -> dict:
         probes["c08.blackhole"] = 1
     if "blocked_dead_link" in info:
         probes["c08.blocked_dead_link"] = 1
+    if info.get("full_buffer_at_tick"):
+        probes["c08.full_buffer_at_tick"] = 1
     if info.get("other_extended_traffic"):
         probes["c08.other_extended_traffic"] = 1
 
